@@ -10,12 +10,13 @@ namespace Flax.LiftLoop
 open Flax.Filter
 variable {α : Type} [Inhabited α]
 
-/-- not one of the four errors that flax's lift.scan / lift.vmap / pack raise themselves -/
+/-- not one of the errors that flax's lift.scan / lift.vmap / pack raise themselves -/
 def Err.foreign : Err → Bool
   | .inconsistentLengths => false
   | .lengthUnspecified => false
   | .broadcastDependency => false
   | .unmappedOutput => false
+  | .broadcastOutUnsupported => false
   | _ => true
 
 /-- the body raises only its own errors (flax's `ModifyScopeVariableError`, `ScopeCollectionNotFound`, … are
@@ -384,10 +385,11 @@ theorem axesScan_err {L : Option Nat} {rev verdict : Bool} {iv : List Int} {ia :
     {oA : AxesTree} {ov : List Int} {fn : ScanFn α}
     (hfn : ∀ b c sv rg as e, fn b c sv rg as = .error e → F e) {bIn : Vars α}
     {init : Vars α × List (Arr α)} {svs : List (Vars α)} {rngs : List RngG} {args : List (Arr α)} {e : Err}
-    (h : axesScan L rev verdict false iv ia oA ov fn bIn init svs rngs args = .error e) :
+    (h : axesScan true L rev verdict false iv ia oA ov fn bIn init svs rngs args = .error e) :
     F e ∨ (e = .broadcastDependency ∧ verdict = false ∧
-      ∃ r, axesScan L rev verdict true iv ia oA ov fn bIn init svs rngs args = .ok r) := by
+      ∃ r, axesScan true L rev verdict true iv ia oA ov fn bIn init svs rngs args = .ok r) := by
   unfold axesScan at h ⊢
+  simp only [Bool.not_true, Bool.false_eq_true, if_false] at h ⊢
   rcases bind_err h with h1 | ⟨xs, hxs, h2⟩
   · exact Or.inl (prepXs_err h1)
   · have hnE : ∀ e, (xs.dims >>= jaxLength L) = .error e → F e := by
@@ -428,7 +430,8 @@ theorem decideLength_err {L : Option Nat} {sizes : List Nat} {e : Err} (h : deci
 else from the sizes read off the arguments; or flax's broadcast-dependency rejection, raised exactly when the
 constancy check fails after a successful broadcast pass; or it is foreign (JAX's, a structure check's, the
 body's).  `unmapped output variables` cannot occur. -/
-theorem liftScan_err (cfg : ScanCfg) (verdict : Bool) (body : Body α) (hb : BodyForeign body) (m : LFilter)
+theorem liftScan_err (cfg : ScanCfg) (hcc : cfg.checkConst = true) (verdict : Bool) (body : Body α)
+    (hb : BodyForeign body) (m : LFilter)
     (outer : Vars α) (rngs : Rngs) (init args : List (Arr α)) (e : Err)
     (h : liftScan cfg verdict body m outer rngs init args = .error e) :
     (∃ sizes, argSizes cfg.inAxes args = .ok sizes ∧ decideLength cfg.length sizes = .error e ∧
@@ -438,6 +441,7 @@ theorem liftScan_err (cfg : ScanCfg) (verdict : Bool) (body : Body α) (hb : Bod
     e.foreign = true := by
   unfold liftScan liftScanCore at h
   unfold liftScanCore
+  rw [hcc] at h ⊢
   rcases bind_err h with h1 | ⟨sizes, hs, h2⟩
   · exact Or.inr (Or.inr (argSizes_err h1))
   · rcases bind_err h2 with h3 | ⟨d, hd, h4⟩
@@ -455,7 +459,7 @@ theorem liftScan_err (cfg : ScanCfg) (verdict : Bool) (body : Body α) (hb : Bod
             rw [hd]
             show (cfg.inAxes.expand args.length >>= _) = _
             rw [hia]
-            show (axesScan _ _ _ _ _ _ _ _ _ _ _ _ _ _ >>= _) = _
+            show (axesScan _ _ _ _ _ _ _ _ _ _ _ _ _ _ _ >>= _) = _
             rw [hr]
             rfl
         · cases h8
@@ -486,19 +490,21 @@ theorem bind_ok {β γ : Type} {x : Except Err β} {f : β → Except Err γ} {r
 theorem axesScan_reject {L : Option Nat} {rev : Bool} {iv : List Int} {ia : List (Option Int)}
     {oA : AxesTree} {ov : List Int} {fn : ScanFn α} {bIn : Vars α} {init : Vars α × List (Arr α)}
     {svs : List (Vars α)} {rngs : List RngG} {args : List (Arr α)} {r : StepOut α}
-    (h : axesScan L rev false true iv ia oA ov fn bIn init svs rngs args = .ok r) :
-    axesScan L rev false false iv ia oA ov fn bIn init svs rngs args = .error .broadcastDependency := by
+    (h : axesScan true L rev false true iv ia oA ov fn bIn init svs rngs args = .ok r) :
+    axesScan true L rev false false iv ia oA ov fn bIn init svs rngs args = .error .broadcastDependency := by
   unfold axesScan at h ⊢
+  simp only [Bool.not_true, Bool.false_eq_true, if_false] at h ⊢
   obtain ⟨xs, hxs, ht⟩ := bind_ok h
   rw [hxs]
   exact axesScanTail_reject ht
 
-theorem liftScan_reject (cfg : ScanCfg) (body : Body α) (m : LFilter) (outer : Vars α) (rngs : Rngs)
+theorem liftScan_reject (cfg : ScanCfg) (hcc : cfg.checkConst = true) (body : Body α) (m : LFilter) (outer : Vars α) (rngs : Rngs)
     (init args : List (Arr α)) (r : Result α)
     (h : liftScanCore cfg false true body m outer rngs init args = .ok r) :
     liftScan cfg false body m outer rngs init args = .error .broadcastDependency := by
   unfold liftScan
   unfold liftScanCore at h ⊢
+  rw [hcc] at h ⊢
   obtain ⟨sizes, hs, h2⟩ := bind_ok h
   obtain ⟨d, hd, h3⟩ := bind_ok h2
   obtain ⟨ia, hia, h4⟩ := bind_ok h3
@@ -508,7 +514,7 @@ theorem liftScan_reject (cfg : ScanCfg) (body : Body α) (m : LFilter) (outer : 
   rw [hd]
   show (cfg.inAxes.expand args.length >>= _) = _
   rw [hia]
-  show (axesScan _ _ _ _ _ _ _ _ _ _ _ _ _ _ >>= _) = _
+  show (axesScan _ _ _ _ _ _ _ _ _ _ _ _ _ _ _ >>= _) = _
   rw [axesScan_reject hr]
   rfl
 
